@@ -15,6 +15,9 @@
       [22, T, []] / [22, T, [v]]  nil / non-nil pointer
       [20, w, []] / [20, w, [v]]  nil / non-nil interface-typed slot (w = which interface type)
       [25, [v,...]]               struct
+      [28, T, [v], path]          an INTERIOR pointer: a non-nil *T pointing into the value itself, to the
+                                  part reached from the root by path; v is that part once more (the tree
+                                  reading: the pointee is counted again); path is for the Go builder only
 
     SHARING: a slice, map or pointer node may carry one more trailing element, an
     integer id > 0: the Go side builds the node once per id and uses the SAME
@@ -91,6 +94,12 @@ Fixpoint dec (v : val) : option value :=
       else if k =? 20 then
         match rest with
         | [_; VL o] => match dec_opt dec o with Some o => Some (VIface o) | None => None end
+        | _ => None
+        end
+      else if k =? 28 then
+        (* interior pointer [28, T, [v], path]: a non-nil pointer; v is the part it points to *)
+        match rest with
+        | [_; VL [x]; VL _] => match dec x with Some y => Some (VPtr (Some y)) | None => None end
         | _ => None
         end
       else if k =? 25 then
@@ -208,6 +217,15 @@ Fixpoint dec_l (v : val) (lab : val) {struct v} : option lvalue :=
             | _, _ => None
             end
           | _ => None
+          end
+        else if k =? 28 then
+          match rest, kids with
+          | [_; VL [x]; VL _], [VL [_; lb]] =>
+              match dec_l x lb with
+              | Some y => Some (LPtr ty (Some y))
+              | None => None
+              end
+          | _, _ => None
           end
         else if k =? 25 then
           match rest with
@@ -341,6 +359,11 @@ Fixpoint dec_g (v : val) : option gvalue :=
         | [_; VL o] => match dec_opt_g dec_g o with Some o => Some (GIface o) | None => None end
         | _ => None
         end
+      else if k =? 28 then
+        match rest with
+        | [_; VL [x]; VL _] => match dec_g x with Some y => Some (GPtr (Some y)) | None => None end
+        | _ => None
+        end
       else if k =? 26 then
         match rest with
         | [_; VZ a] => if a <? 0 then None else Some (GRef (Z.to_nat a))
@@ -368,6 +391,38 @@ Definition dec_cell (c : val) : option gvalue :=
 Definition dec_optarg (v : val) : option sopt :=
   match v with
   | VL [VZ 0; avg; unit] => dec_opt_stat avg unit
+  | _ => None
+  end.
+
+(** ---- a session (size.Stat/after-panic): Of and the first line of Stat of a pointer to x1; a Stat
+    call on a holder of that pointer and a member of an unsupported kind (1 = it panicked); the
+    pointee replaced by x2; Of and Stat again.  Three rounds.  The functions keep nothing between
+    calls: every observation is the function of its own argument. *)
+Definition holder_of (variant : Z) (p : value) : value :=
+  if variant =? 2 then VSlice (Some [VIface (Some p); VIface (Some VOther)])
+  else if (variant =? 0) || (variant =? 1) then VStruct [p; VOther]
+  else VStruct [p; VScalar KInt].
+
+Definition first_val (o : option (option Z)) : val :=
+  match o with
+  | Some None => VL []
+  | Some (Some n) => VL [VZ n]
+  | None => VPanic
+  end.
+
+Definition session_round (of_ : option value -> val) (first : option value -> Z -> Z -> val)
+    (panics : value -> bool) (x1 x2 : value) (d m variant : Z) : val :=
+  let p1 := VPtr (Some x1) in
+  let p2 := VPtr (Some x2) in
+  VL [of_ (Some p1); first (Some p1) d m; vbool (panics (holder_of variant p1)); of_ (Some p2); first (Some p2) d m].
+
+Definition session_args (a : list val) : option (value * value * Z * Z * Z) :=
+  match a with
+  | [_; v1; v2; VZ d; VZ m; VZ variant] =>
+      match dec v1, dec v2 with
+      | Some x1, Some x2 => if supportedb x1 && supportedb x2 then Some (x1, x2, d, m, variant) else None
+      | _, _ => None
+      end
   | _ => None
   end.
 
@@ -508,4 +563,25 @@ Definition ops_C20 : list opdef := [
            | Some d => match spec_opts d depth maxItem (map dec_optarg opts) with Some t => vzs t | None => VPanic end
            | None => VBad end
        | _ => VBad end) |}
+;
+  (* no memory between calls, also not after a call that panicked (see session_round) *)
+  {| op_name := "size.Stat/after-panic";
+     op_run := fun a => match session_args a with
+       | Some (x1, x2, d, m, variant) =>
+           let r := session_round
+                      (fun data => match Of data with Some n => VZ n | None => VPanic end)
+                      (fun data d m => first_val (StatFirst data d m))
+                      (fun h => match StatFirst (Some h) 3 10 with None => true | Some _ => false end)
+                      x1 x2 d m variant in
+           VL [r; r; r]
+       | None => VBad end;
+     op_spec := fun_spec (fun a => match session_args a with
+       | Some (x1, x2, d, m, variant) =>
+           let r := session_round
+                      (fun data => VZ (spec_Of data))
+                      (fun data _ _ => match spec_StatFirst data with None => VL [] | Some n => VL [VZ n] end)
+                      (fun h => negb (supportedb h))
+                      x1 x2 d m variant in
+           VL [r; r; r]
+       | None => VBad end) |}
 ].
